@@ -50,6 +50,11 @@ impl<V, G> HnswIndex<V, G> {
         })
     }
 
+    /// The storage backends (e.g. to persist the current roots of their B-trees).
+    pub fn stores(&self) -> (&V, &G) {
+        (&self.vector_store, &self.graph_store)
+    }
+
     fn random_level(&self) -> u8 {
         #[cfg(nervusdb_verif)]
         if let Some(level) = verif::next_forced_level() {
